@@ -1324,6 +1324,9 @@ class Transport(threading.Thread, ClosingContextManager):
         try:
             if len(self.server_accepts) > 0:
                 chan = self.server_accepts.pop(0)
+            elif not self.active:
+                # the connection is gone: nothing will ever arrive
+                chan = None
             else:
                 self.server_accept_cv.wait(timeout)
                 if len(self.server_accepts) > 0:
@@ -1915,6 +1918,13 @@ class Transport(threading.Thread, ClosingContextManager):
     def stop_thread(self):
         self.active = False
         self.packetizer.close()
+        # release anybody blocked in accept(): the run loop only notifies
+        # them when it finds the transport still active
+        self.lock.acquire()
+        try:
+            self.server_accept_cv.notify_all()
+        finally:
+            self.lock.release()
         # Keep trying to join() our main thread, quickly, until:
         # * We join()ed successfully (self.is_alive() == False)
         # * Or it looks like we've hit issue #520 (socket.recv hitting some
